@@ -305,6 +305,18 @@ impl Prop for C14 {
     fn gen(ch: &mut Ch, tier: Tier) -> UniformCase {
         let kind = ch.pick(&ALL_KINDS);
         let mut space = gen_space(ch, kind, BoundsMode::Bounded, false);
+        // requested SO2 intervals that stick out of [-pi, pi] (the constructor clamps them)
+        for c in space.comps.iter_mut() {
+            if let Comp::SO2 { bounds } = c {
+                if ch.prob(0.3) {
+                    *bounds = Some(match ch.below(3) {
+                        0 => (-4.0, ch.range(-1.0, 3.0)),
+                        1 => (ch.range(-3.0, 1.0), 5.0),
+                        _ => (0.0, 2.0 * PI),
+                    });
+                }
+            }
+        }
         // keep rejection sampling affordable: cones of radius >= 0.3 (generator default)
         if kind == KindTag::CS && space.comps.len() > 3 {
             space.comps.truncate(3);
